@@ -29,8 +29,8 @@ for p in props:
             "text": n.get("text", "Static structural analysis of the type-checked program: every instance of the rules %s must hold on the current tree. These are necessary conditions of the property that are visible in the shape of the code on every path; the behaviour for all inputs is not decided." % ", ".join(rules)),
             "design_ref": "DESIGN.md section 5, " + pid,
         },
-        "level_note": n.get("note", "Trusted: rustc MIR construction, the rxfacts driver, the Python analyses, oracle tables. Undecided remainder: see DESIGN.md section 5 under this property."),
-        "technique": n.get("technique", "static analysis: repository-specific rules over rustc MIR facts (decision tables of leaf functions, guard dominance, table-vs-oracle comparison, call-graph reachability)"),
+        "level_note": n.get("note", "Trusted: rustc MIR construction, the rxfacts driver, the Python analyses (incl. the normal forms of DESIGN.md 10.9), oracle tables. Undecided remainder: see DESIGN.md section 5 under this property. Open findings printed as KNOWN-FINDING are listed in known_findings.json. The thorough tier evaluates the same rules plus the compile witnesses / positive controls and a self-test on the tree under check: every kept seeded change for this property must make the check fire, every kept behaviour-preserving refactoring must leave it silent (CONTROL-LOST / CONTROL-NOISY lines and evidence coverage.self_test; never part of the verdict)."),
+        "technique": n.get("technique", "static analysis: repository-specific rules over rustc MIR facts of the current tree (path-sensitive symbolic decision tables of the anchored functions compared with specifications, guard dominance, data flow of iterators and saved state, table-vs-oracle comparison, call-graph reachability and SCCs, audited panic-site inventory); nothing is executed"),
     })
 m = {
     "version": 1,
